@@ -712,6 +712,20 @@ theorem connInv_after (site : Site) (e : SrvEnv) (h1h : 1 ∈ e.resetHooks) (P :
     · have : h1Msg site e c head = (c, none) := by simp [h1Msg, ho]
       rw [this]; exact h
 
+/-- the carried fields (`ReqStale`: condition cache, keep-alive checkpoints, saved method, …) of the
+    request object of a connection between two requests do not reach the next answer.  This holds
+    because every model function on the response path is typed on `ReqCore`; that the C functions
+    read none of these fields before writing them is what the `rp` stream tests (C object with
+    junk in these fields against the model started from a fresh one). -/
+theorem carried_fields_unread (site : Site) (e : SrvEnv) (h1h : 1 ∈ e.resetHooks) (c : Conn) (hinv : ConnInv e c)
+    (hopen : c.isOpen = true) (d : ReqStale) (R : Bytes) (hr : ReqStart R) :
+    ((h1Msg site e { c with r := { c.r with toReqStale := d } } R).2).map Out.core =
+      ((h1Msg site e c R).2).map Out.core := by
+  have h1 := (h1Msg_answer site e h1h c hinv hopen R hr).1
+  have hinv' : ConnInv e { c with r := { c.r with toReqStale := d } } := hinv
+  have h2 := (h1Msg_answer site e h1h _ hinv' hopen R hr).1
+  rw [h1, h2]
+
 /-! ### one HTTP/2 stream on a pooled request object -/
 
 theorem h2InitStream_core (h2r : ReqSt) (swin : Nat) (p q : ReqSt) (h : p.toReqCore = q.toReqCore) :
@@ -812,6 +826,15 @@ theorem expectedAnswerH2_h2r (site : Site) (e : SrvEnv) (a b : ReqSt) (swin swin
       rw [hsn]
   unfold expectedAnswerH2
   rw [this]
+
+/-- the request object of a connection that has not had a request since it was accepted (new, or
+    recycled after any history) is as good a connection-level request `h2r` as a fresh one -/
+theorem expectedAnswerH2_conn (site : Site) (e : SrvEnv) (c : Conn) (hinv : ConnInv e c) (h0 : c.requestCount = 0)
+    (swin swin' : Nat) (fs : List (Bytes × Bytes)) (es : Bool) :
+    expectedAnswerH2 site e c.r swin fs es = expectedAnswerH2 site e (ReqSt.init e) swin' fs es := by
+  apply expectedAnswerH2_h2r
+  · exact congrArg ReqLive.conf hinv.1
+  · exact congrArg ReqKept.serverName (hinv.2 h0)
 
 /-! ### the HTTP/1.x and the HTTP/2 header parsers store the same request -/
 
